@@ -911,14 +911,35 @@ func RunUCITwins(sc *UCIScenario, mk func(w *uciWorld) chooser, n int) (a *UCIOu
 		w.twinOf = wa
 		ws = append(ws, w)
 	}
+	// The twins' GUI lags: after every step it lets 10 simulated ms pass before
+	// it reads what the engine wrote (driver A's GUI read every line at once).
+	// The sessions carry no clock-dependent request, so this must not change a
+	// single reported line.
+	readAll := func(w *uciWorld) {
+		for i := 0; i < 10_000; i++ {
+			w.settle()
+			if !w.hasPend {
+				return
+			}
+			w.apply(UStep{Op: "grant"})
+		}
+	}
+	for _, w := range ws {
+		w.autoGrant = false
+	}
 	for _, st := range steps {
 		for _, w := range ws {
-			w.settle()
+			readAll(w)
 			if w.apply(st) {
 				w.out.Steps = append(w.out.Steps, st)
 			}
-			w.settle() // the effects of the step are complete before the next driver moves
+			w.settle() // the effects of the step unfold as far as the unread output allows
+			w.sleep(10 * time.Millisecond)
+			readAll(w)
 		}
+	}
+	for _, w := range ws {
+		w.autoGrant = true
 	}
 	for i, w := range ws {
 		twins = append(twins, w.finish(i == len(ws)-1))
